@@ -7,6 +7,30 @@ import re
 
 HERE = os.path.dirname(os.path.dirname(os.path.abspath(__file__)))
 REMARKS = {
+ 'C02_q2': 'first run: MISSED (nothing was hung on a node after it had been changed in place); a third of the in-place mutations are now followed by json_object_set_userdata on the same node',
+ 'C05_q3': 'a fault case (strdup inside the removal step of a "move" whose from-name needs unescaping): caught by C08 (patch workloads over x/y, t~u, v/w); C05 injects no faults into patches',
+ 'C06_q1': 'needs a second thread (per-thread hash seed): caught by C18 (seed trials: every thread must hash the fixed key like the late observer, keys inserted during the race must be found from another thread)',
+ 'C07_q1': 'caught by C05 (a node stored back into its own slot, see C07_l2); C07 counts releases of overwritten elements but never stored an element over itself',
+ 'C07_q2': 'first run: MISSED (one comparator, keyed on something no operation changes); a second order by the CURRENT value of integer elements: sort, json_object_set_int64 on an element (or array_list_add on json_object_get_array), sort again',
+ 'C07_q3': 'a fault case (realloc while replacing the last element of an exactly full array): caught by C08 (array_op workloads 4/5), like C07_l1',
+ 'C08_q2': 'first run: MISSED (7-byte pieces over even-numbered documents only, none of which has a token of 32 bytes or more); parse_split_token: the first call ends inside a string / name / number / comment after L = 1..140 characters, plus chunked parses of every document at piece sizes 1, 7, 13, 31, 64',
+ 'C09_q1': 'first run: MISSED (custom serializers on copied nodes always came with userdata); copies of nodes carrying only a serializer FUNCTION (set_serializer(node, fn, NULL, NULL)) must serialize like the source under all 64 flag sets',
+ 'C12_q3': 'caught by C05 (json_pointer_set of a node at its own location, see C07_l2)',
+ 'C17_q2': 'caught by C06 (visitor form of delete-current-while-iterating), like C17_p1',
+ 'C17_q3': 'first run: MISSED (trees at most 150 levels deep); 0.06% of the trees are nested 300..6000 levels (around 2^10, 2^11, 2^12), one traversal always reaches the innermost node',
+ 'C18_q2': 'first run: MISSED (nobody called json_global_set_string_hash between the racing first use and the late observation); every other group of seed trials re-selects perl-like and then the default hash before the late look; the seed hook of the single-threaded drivers now hands out a NEW value on any further draw and C06 switches the hash away AND back on live objects',
+ 'C19_q1': 'first run: MISSED (the fast-append macro always got an int length); fastu: printbuf_memappend_fast with a size_t length (as with strlen), in particular right after a fill that ends exactly at the capacity',
+ 'C19_q2': 'first run: MISSED (big-buffer requests were sized from what had been appended, which made every one of them more than twice the capacity); requests are now sized as a fraction of the CURRENT capacity: 1.001x .. 2.6x at 64 KiB+, 1-4 MiB and 8 MiB+',
+ 'C20_q3': 'first run: MISSED (nine flag sets, none with COLOR); any of the 64 flag sets through every writer',
+ 'C14_q1': 'first run: MISSED (every parse used a tokener created under the locale in force); LPT: the tokener is created (and every other time used) under "C", then the comma locale is installed, then the text is parsed',
+ 'C14_q3': 'a fault case (newlocale failing after duplocale succeeded): caught by C08 (parse workloads + locale-object ledger per fault point), like C08_h2',
+ 'C16_q1': 'first run: missed by C16 (default mode was only parsed in one call), caught by C03; 30% of the inner variants are now also fed to a default-mode tokener in 1-7 byte pieces (same value required)',
+ 'C16_q2': 'first run: missed by C16 (one document per tokener), caught by C04 (reset parser vs new parser with the same flags); C16 now runs the original document and then the variant through ONE strict tokener (reset always / as required)',
+ 'C16_q3': 'first run: MISSED (STRICT|ALLOW_TRAILING_CHARS was only tried on trailing bytes); half of the inner variants are also parsed under that flag pair and must be refused',
+ 'C01_q2': 'a fault case (realloc while appending the U+FFFD of an unpaired surrogate): first missed by C08 as well (no unpaired surrogates in the token-boundary workloads); kinds 5-8 added (high surrogate before a plain character / a short escape / a non-surrogate \\u escape, lone low surrogate)',
+ 'C15_q1': 'json_object_from_fd_ex(fd, 0): caught by C20 (depth limits 0 and below must be refused with a message); C15 itself only drives json_tokener_new_ex',
+ 'C15_q2': 'a fault case (calloc of the level stack failing for D > 32): caught by C08 (tokener_new workloads parse a document nested limit-1 deep with the tokener they were handed)',
+ 'C15_q3': 'short reads: caught by C20',
  'C17_p3': 'NOT CAUGHT, deliberately: the callback shortens the array being visited (see C17_m1)',
  'C02_p3': 'NOT CAUGHT, deliberately: needs a custom double format with an UPPER-case exponent (%E/%G), for which the unchanged tree already produces invalid JSON ("1E+20.0", DESIGN 8.3); the generator uses lower-case formats only',
  'C08_p3': 'first run: not caught — the broad known-finding key C08/serializer-ignores-printbuf-failure covered every serializer site; the finding is now listed per call site (function + statement, from the backtrace of the failed allocation) and serialize_boundary sweeps the growth boundary over every append, so the newly unchecked append of the literal is a new key',
